@@ -33,7 +33,7 @@ def RULE(tier):
     return (
         f"A: da.percentile on EVERY 1-d array of length 1..{n} over 4 levels (duplicates) x EVERY chunking (plus every chunking with zero-length "
         f"chunks, <= 3 chunks, n <= 3) x every non-empty sorted sub-vector of {QFULL} (31; "
-        + ("n >= 5: the 8 listed in QSUB, n = 6 with methods linear/lower on int data" if tier == "thorough" else "n = 4: the 8 listed in QSUB")
+        + ("n >= 5: the 8 listed in QSUB, n = 6 with methods linear/lower on int data" if tier == "thorough" else "n = 4: the first 6 listed in QSUB")
         + ") and scalar q x methods linear/lower/higher/nearest/midpoint x dtypes i8, f8 (" + ("f8 in full for n <= 4, linear only for n = 5, none for n = 6" if tier == "thorough" else "f8 in full for n <= 2, linear x QSUB for n = 3, none for n = 4") + ") and f8 with levels (-inf, a, b, +inf) for "
         "lower/higher/nearest: bounds, monotone in q, end-points. B: da.nanpercentile along each axis vs np.nanpercentile on 1-d (n <= 4) and "
         "2-d (2,2),(2,3),(3,2) arrays with EVERY NaN placement x every chunking x q in {0, 50, 100, 30, [25,75], [0,50,100]} x keepdims x "
@@ -41,7 +41,7 @@ def RULE(tier):
     )
 
 
-QSUB = ((0, 25, 50, 75, 100), (0, 100), (50,), (25, 75), (0,), (100,), (0, 50, 100), (25, 50, 75))
+QSUB = ((0, 25, 50, 75, 100), (0, 100), (50,), (25, 75), (0,), (100,), (0, 50, 100), (25, 50, 75))  # quick, n = 4: the first 6
 QB = (0, 50, 100, 30, (25, 75), (0, 50, 100))
 
 
@@ -96,7 +96,7 @@ def cases_of(shard, tier):
     if kind == "pct":
         _, n, part, nparts = shard
         chs = [(c,) for c in enums.compositions(n)]
-        qs = all_q() if (n < NMAX[tier] or tier == "thorough") else list(QSUB)
+        qs = all_q() if (n < NMAX[tier] or tier == "thorough") else list(QSUB[:6])
         methods = METHODS
         if tier == "thorough" and n >= 5:
             qs = list(QSUB)  # thorough, n >= 5: the 8 QSUB vectors; n = 6: methods linear/lower on int data
